@@ -55,7 +55,12 @@ from vlib.core import Family, Program, Harness
 F = collections.namedtuple("F", "name ty attr")      # name None for positional fields
 ERR_TYPES = {"src", "box", "boxss", "t"}
 RUST_TY = {"src": "Src", "box": "Box<dyn Error + 'static>", "boxss": "Box<dyn Error + Send + Sync + 'static>",
-           "i32": "i32", "bt": "Backtrace", "t": "T", "u": "U"}
+           "i32": "i32", "bt": "Backtrace", "t": "T", "u": "U",
+           # the same std type under other path spellings: a field type is "Backtrace-named" by its LAST path segment
+           # (doc/error.md: "the type of exactly one of the fields is called `Backtrace`"); `bt` = `pub use std::backtrace as bt;` of common.rs
+           "btq": "std::backtrace::Backtrace", "btqq": "::std::backtrace::Backtrace", "btm": "bt::Backtrace",
+           "btself": "self::bt::Backtrace"}
+BT_TYPES = {"bt", "btq", "btqq", "btm", "btself"}
 
 
 class Ambiguous(Exception):
@@ -66,10 +71,25 @@ class Unsettled(Exception):
     pass
 
 
-def a_src(f): return f.attr in ("source", "backtrace, source")
-def a_nsrc(f): return f.attr == "not(source)"
-def a_bt(f): return f.attr in ("backtrace", "backtrace, source")
-def a_nbt(f): return f.attr == "not(backtrace)"
+# one attribute may carry several parameters; their order is irrelevant
+def params(f):
+    out, depth, cur = [], 0, ""
+    for ch in (f.attr or ""):
+        if ch == "," and depth == 0:
+            out.append(cur.strip())
+            cur = ""
+            continue
+        depth += (ch == "(") - (ch == ")")
+        cur += ch
+    if cur.strip():
+        out.append(cur.strip())
+    return out
+
+
+def a_src(f): return "source" in params(f)
+def a_nsrc(f): return "not(source)" in params(f)
+def a_bt(f): return "backtrace" in params(f)
+def a_nbt(f): return "not(backtrace)" in params(f)
 def ign(f): return f.attr == "ignore"
 
 
@@ -83,9 +103,9 @@ def backtrace_of(shape, fs):
     if ex:
         return ex[0]
     if shape == "named":
-        inf = [i for i, f in fs if not a_nbt(f) and (f.name == "backtrace" or f.ty == "bt")]
+        inf = [i for i, f in fs if not a_nbt(f) and (f.name == "backtrace" or f.ty in BT_TYPES)]
     else:
-        inf = [i for i, f in fs if not a_nbt(f) and f.ty == "bt"]
+        inf = [i for i, f in fs if not a_nbt(f) and f.ty in BT_TYPES]
     if len(inf) > 1:
         raise Ambiguous
     return inf[0] if inf else None
@@ -96,7 +116,7 @@ def tuple_candidate(fs):
     if len(fs) == 1:
         i, f = fs[0]
         if bt == i:
-            if f.ty == "bt":
+            if f.ty in BT_TYPES:
                 return None          # doc rule 2: no field that is not used as the backtrace
             raise Unsettled          # `(#[error(backtrace)] Src)`: statement says sole field, docs say none
         return i
@@ -147,7 +167,7 @@ def valid(shape, fields):
         return False
     if e is not None and fields[e].ty not in ERR_TYPES:
         return False
-    if bt is not None and bt != e and fields[bt].ty != "bt":
+    if bt is not None and bt != e and fields[bt].ty not in BT_TYPES:
         return False        # provide() hands `&field` to provide_ref::<Backtrace>
     return True
 
@@ -169,6 +189,8 @@ def P(ty="src", attr=None): return F(None, ty, attr)
 
 
 S, NS, B, NB, IGN, BS = "source", "not(source)", "backtrace", "not(backtrace)", "ignore", "backtrace, source"
+# several parameters in one attribute, a `not(..)` group first / last
+NB_S, S_NB, NB_NS, NS_NB = "not(backtrace), source", "source, not(backtrace)", "not(backtrace), not(source)", "not(source), not(backtrace)"
 
 # the systematic core (shape, fields); every layout appears as a struct and as an enum variant
 CORE = [
@@ -222,9 +244,27 @@ NOT_ATTR_BESIDE_CANDIDATE = [
     ("named", (N("source"), N("other", attr=NB), N("other2", "i32"))),
     ("tuple", (P(), P("bt", NS))), ("tuple", (P("bt", NS), P())),
 ]
-CORE += NOT_ATTR_BESIDE_CANDIDATE
+# several parameters in ONE attribute: every parameter counts, whatever its position (a `not(..)` group first, and the reverse
+# order as control), on named fields, on the sole tuple field, inside a longer tuple
+MULTI_PARAM = [
+    ("named", (N("cause", attr=NB_S), N("code", "i32"))), ("named", (N("cause", attr=S_NB), N("code", "i32"))),
+    ("named", (N("other"), N("cause", attr=NB_S))), ("named", (N("source"), N("cause", attr=NB_S))),
+    ("named", (N("source", attr=NB_NS), N("other"))), ("named", (N("source", attr=NS_NB), N("other"))),
+    ("tuple", (P(attr=NB_NS),)), ("tuple", (P(attr=NS_NB),)),
+    ("tuple", (P("i32"), P(attr=NB_S), P("i32"))), ("tuple", (P(attr=NB_S), P())), ("tuple", (P(), P(attr=S_NB))),
+]
+# the two-field tuple rule / the sole-field rule with every path spelling of the Backtrace type
+BACKTRACE_PATHS = [
+    ("tuple", (P(), P("btq"))), ("tuple", (P("btqq"), P())), ("tuple", (P(), P("btm"))), ("tuple", (P("btself"), P())),
+]
+# a sole Backtrace-named field is never the source (a wrong inference does not type-check: kept apart from the two-field layouts)
+BACKTRACE_PATHS_SOLE = [("tuple", (P("btq"),)), ("tuple", (P("btm"),)), ("tuple", (P("btqq"),)), ("tuple", (P("btself"),))]
+# These lists are in BOTH tiers as grouped programs (<= GROUP layouts behind one harness, struct form and variant form each):
+# `grpq_{st,en}_<tag>_<i>`; the failing assertion names the layout.
+QUICK_GROUPS = [("notattr", NOT_ATTR_BESIDE_CANDIDATE), ("multiparam", MULTI_PARAM), ("btpath2", BACKTRACE_PATHS),
+                ("btpath1", BACKTRACE_PATHS_SOLE)]
 
-ATTRS = {"src": [None, S, NS, IGN, NB, B, BS], "i32": [None, NS, IGN, NB], "bt": [None, B, NB, IGN, NS]}
+ATTRS = {"src": [None, S, NS, IGN, NB, B, BS, NB_S, NB_NS], "i32": [None, NS, IGN, NB], "bt": [None, B, NB, IGN, NS]}
 
 
 def product(n, shape):
@@ -252,6 +292,7 @@ def retype(fields, i, ty):
 COMMON = r'''
 pub use core::fmt;
 pub use std::backtrace::Backtrace;
+pub use std::backtrace as bt;
 pub use std::error::Error;
 
 /// probe error type: non-zero-sized, so that distinct fields have distinct addresses
@@ -274,7 +315,8 @@ pub fn is_at(r: &Ret<'_>, a: *const u8) -> bool {
 }
 '''
 
-ABBR_ATTR = {None: "", S: "_S", NS: "_nS", B: "_B", NB: "_nB", IGN: "_ign", BS: "_BS"}
+ABBR_ATTR = {None: "", S: "_S", NS: "_nS", B: "_B", NB: "_nB", IGN: "_ign", BS: "_BS",
+             NB_S: "_nB_S", S_NB: "_S_nB", NB_NS: "_nB_nS", NS_NB: "_nS_nB"}
 
 
 def field_token(f):
@@ -316,7 +358,8 @@ def title_of(container, shape, fields, generic, vign):
 def value_expr(ty):
     return {"src": "Src(kani::any())", "t": "Src(kani::any())", "box": "Box::new(Src(kani::any()))",
             "boxss": "Box::new(Src(kani::any()))", "i32": "kani::any::<i32>()", "u": "kani::any::<i32>()",
-            "bt": "Backtrace::disabled()"}[ty]
+            "bt": "Backtrace::disabled()", "btq": "Backtrace::disabled()", "btqq": "Backtrace::disabled()",
+            "btm": "Backtrace::disabled()", "btself": "Backtrace::disabled()"}[ty]
 
 
 def ctor(path, shape, fields):
@@ -526,8 +569,7 @@ def singles(tier):
         add("enum", shape, fields)
         # quick: the struct form as well wherever struct and variant rendering can differ (ignored fields) and for <= 1 field
         # ... and wherever the selected field is not the first one (member access `self.<i>` vs pattern binding)
-        if tier == "thorough" or any(ign(f) for f in fields) or len(fields) <= 1 or (expect(shape, fields) or 0) > 0 \
-                or (shape, fields) in NOT_ATTR_BESIDE_CANDIDATE:
+        if tier == "thorough" or any(ign(f) for f in fields) or len(fields) <= 1 or (expect(shape, fields) or 0) > 0:
             add("struct", shape, fields)
     for shape, fields in QUICK_FLAVOURED:
         for fs, g in flavours(shape, fields):
@@ -652,6 +694,19 @@ def family(tier, seed):
                 rep = key
             progs.append(enum_program(key, title, [("V", shape, fields, vign)], generic, pos=i, with_contract=is_rep, with_control=is_rep))
     assert rep is not None
+    n_grouped = 0
+    for tag, lst in QUICK_GROUPS:
+        for gi in range(0, len(lst), GROUP):
+            ls = lst[gi:gi + GROUP]
+            for shape, fields in ls:
+                check_in_family(shape, fields)
+            n_grouped += 2 * len(ls)
+            lay = [(sh, fs, "", "St%d = %s" % (j, layout_key("struct", sh, fs, "", False))) for j, (sh, fs) in enumerate(ls)]
+            title = " | ".join(title_of("struct", sh, fs, "", False).replace("St", "St%d" % j, 1) for j, (sh, fs) in enumerate(ls))
+            progs.append(struct_program("grpq_st_%s_%d" % (tag, gi // GROUP), title, lay))
+            vs = [("V%d" % j, sh, fs, False) for j, (sh, fs) in enumerate(ls)]
+            title = "enum En { Unit, W(Src), %s }" % ", ".join("V%d%s" % (j, body_decl(sh, fs, "")) for j, (sh, fs) in enumerate(ls))
+            progs.append(enum_program("grpq_en_%s_%d" % (tag, gi // GROUP), title, vs, "", pos=gi // GROUP + 1))
     n_tail = 0
     if tier == "thorough":
         count = collections.Counter()
@@ -698,5 +753,5 @@ def family(tier, seed):
              "many variants under test, or that many structs behind one harness). Every obligation quantifies over all field values and, "
              "for enums, over all variants incl. Unit and W(Src); distinct = harnesses discharged. Plus %d must-reject programs "
              "(ambiguous selections the derive documents as diagnostics), discharged by rustc" % (n_single, n_tail, GROUP, len(MUST_REJECT)),
-        extra_cov={"layouts": n_single + n_tail},
+        extra_cov={"layouts": n_single + n_tail + n_grouped},
     )
